@@ -102,29 +102,30 @@ theorem encode_in_bounds (c : Nat) (hc : c < 65536) (size : Nat) :
 
 /-- decoding a well-formed BMP string (hawk_conv_bchars_to_uchars_with_cmgr, either mode) gives back its characters,
 consumes every byte and reports success; so `length` of the text is its number of characters -/
-theorem decodeAll_encodeAll (all : Bool) (cs : List Nat) (hb : BMP cs) (wcap : Nat) (hw : cs.length ≤ wcap) :
-    convBtoU T all wcap (encodeAll T cs) = .ok (0, (encodeAll T cs).length, cs) :=
-  convBtoU_wf all cs hb wcap hw
+theorem decodeAll_encodeAll {cm : Cmgr} {dom : Nat → Prop} {maxlen : Nat} (hok : CodecOk cm dom maxlen) (all : Bool) (cs : List Nat) (hb : Dom dom cs) (wcap : Nat)
+    (hw : cs.length ≤ wcap) : convBtoU cm all wcap (encodeAllC cm cs) = .ok (0, (encodeAllC cm cs).length, cs) :=
+  convBtoU_wf hok all cs hb wcap hw
 
 /-- characters to bytes (hawk_conv_uchars_to_bchars_with_cmgr): with enough room everything is converted, in order -/
-theorem encodeAll_converts (ws : List Nat) (hb : BMP ws) (rem : Nat) (hr : (encodeAll T ws).length ≤ rem) :
-    convUtoB T ws rem = (0, ws.length, encodeAll T ws) := by
-  obtain ⟨x, k, bs, h, hk, hbs, hlen, hx⟩ := convUtoB_bmp ws hb rem
+theorem encodeAll_converts {cm : Cmgr} {dom : Nat → Prop} {maxlen : Nat} (hok : CodecOk cm dom maxlen) (ws : List Nat) (hb : Dom dom ws) (rem : Nat)
+    (hr : (encodeAllC cm ws).length ≤ rem) : convUtoB cm ws rem = (0, ws.length, encodeAllC cm ws) := by
+  obtain ⟨x, k, bs, h, hk, hbs, hlen, hx⟩ := convUtoB_bmp hok ws hb rem
   rcases hx with ⟨rfl, rfl⟩ | ⟨rfl, c, rest, hd, hlt⟩
   · rw [h, hbs]; simp
   · exfalso
-    have hsplit : encodeAll T ws = bs ++ encodeAll T (c :: rest) := by
-      rw [hbs, ← hd, ← encodeAll_append, List.take_append_drop]
-    have : (encodeAll T ws).length = bs.length + (encodeAll T (c :: rest)).length := by rw [hsplit]; simp
-    have := encodeAll_length_pos c rest (hb c (List.mem_of_mem_drop (by rw [hd]; simp)))
+    have hsplit : encodeAllC cm ws = bs ++ encodeAllC cm (c :: rest) := by
+      rw [hbs, ← hd, ← encodeAllC_append, List.take_append_drop]
+    have : (encodeAllC cm ws).length = bs.length + (encodeAllC cm (c :: rest)).length := by rw [hsplit]; simp
+    have := encodeAll_length_pos cm c rest
     omega
 
-/-- the conversion loop used by tio on arbitrary bytes, for every table: no out-of-bounds read, no more characters than
+/-- the conversion loop used by tio on arbitrary bytes, for every character manager whose decoder stays in bounds
+(`decoders_in_bounds`: utf8 with any table, utf16, mb8): no out-of-bounds read, no more characters than
 room, no more bytes consumed than given, and a verdict among ok / illegal / incomplete -/
-theorem convUpto_in_bounds (tbl : List Utf8Row) (stopper wcap : Nat) (s : List UInt8) :
-    ∃ x mlen out, convUpto tbl stopper wcap s = .ok (x, mlen, out) ∧ out.length ≤ wcap ∧ out.length ≤ mlen ∧
+theorem convUpto_in_bounds (cm : Cmgr) (hdec : DecTotal cm) (stopper wcap : Nat) (s : List UInt8) :
+    ∃ x mlen out, convUpto cm stopper wcap s = .ok (x, mlen, out) ∧ out.length ≤ wcap ∧ out.length ≤ mlen ∧
       mlen ≤ s.length ∧ (x = 0 ∨ x = -1 ∨ x = -3) := by
-  obtain ⟨x, mlen, out, h, h1, h2, h3, h4, _⟩ := convUpto_total tbl stopper s.length s wcap (Nat.le_refl _)
+  obtain ⟨x, mlen, out, h, h1, h2, h3, h4, _⟩ := convUpto_total cm hdec stopper s.length s wcap (Nat.le_refl _)
   exact ⟨x, mlen, out, h, h1, h2, h3, h4⟩
 
 /-! ## tio read side -/
@@ -132,65 +133,65 @@ theorem convUpto_in_bounds (tbl : List Utf8Row) (stopper wcap : Nat) (s : List U
 /-- **chunk independence**: a well-formed BMP byte string, delivered by the input handler in any chunks (none empty),
 through a staging buffer of any capacity ≥ 3 and read with any request size ≥ 1, with or without IGNOREECERR,
 comes out as exactly its characters, and the loop ends with "end of input" -/
-theorem tio_read_chunk_independent (cfg : Cfg) (hT : cfg.tbl = T) (hl : cfg.legacy = false) (hc : 3 ≤ cfg.capa)
-    (size : Nat) (hs : 1 ≤ size) (cs : List Nat) (hb : BMP cs) (chunks : List (List UInt8))
-    (hne : ∀ c ∈ chunks, c ≠ []) (hj : chunks.flatten = encodeAll T cs) :
+theorem tio_read_chunk_independent {cm : Cmgr} {dom : Nat → Prop} {maxlen : Nat} (hok : CodecOk cm dom maxlen) (cfg : Cfg) (hT : cfg.cm = cm) (hl : cfg.legacy = false)
+    (hc : maxlen ≤ cfg.capa) (size : Nat) (hs : 1 ≤ size) (cs : List Nat) (hb : Dom dom cs) (chunks : List (List UInt8))
+    (hne : ∀ c ∈ chunks, c ≠ []) (hj : chunks.flatten = encodeAllC cm cs) :
     readAll cfg size (start chunks) = (cs, .eof) :=
-  readAll_wf cfg ⟨hT, hl, hc⟩ size hs cs.length (start chunks) cs (Nat.le_refl _) (inv_start chunks cs hb hne hj)
+  readAll_wf hok cfg ⟨hT, hl, hc⟩ size hs cs.length (start chunks) cs (Nat.le_refl _) (inv_start chunks cs hb hne hj)
 
 /-- hence: re-encoding what was read reproduces the input bytes, and the number of characters read is the
 character count of the text -/
-theorem tio_read_reencodes (cfg : Cfg) (hT : cfg.tbl = T) (hl : cfg.legacy = false) (hc : 3 ≤ cfg.capa)
-    (size : Nat) (hs : 1 ≤ size) (cs : List Nat) (hb : BMP cs) (chunks : List (List UInt8))
-    (hne : ∀ c ∈ chunks, c ≠ []) (hj : chunks.flatten = encodeAll T cs) :
-    encodeAll T (readAll cfg size (start chunks)).1 = chunks.flatten ∧
+theorem tio_read_reencodes {cm : Cmgr} {dom : Nat → Prop} {maxlen : Nat} (hok : CodecOk cm dom maxlen) (cfg : Cfg) (hT : cfg.cm = cm) (hl : cfg.legacy = false) (hc : maxlen ≤ cfg.capa)
+    (size : Nat) (hs : 1 ≤ size) (cs : List Nat) (hb : Dom dom cs) (chunks : List (List UInt8))
+    (hne : ∀ c ∈ chunks, c ≠ []) (hj : chunks.flatten = encodeAllC cm cs) :
+    encodeAllC cm (readAll cfg size (start chunks)).1 = chunks.flatten ∧
     (readAll cfg size (start chunks)).1.length = cs.length := by
-  rw [tio_read_chunk_independent cfg hT hl hc size hs cs hb chunks hne hj]
+  rw [tio_read_chunk_independent hok cfg hT hl hc size hs cs hb chunks hne hj]
   exact ⟨hj.symm, rfl⟩
 
 /-- and: two chunkings, capacities and request sizes of the same well-formed bytes read the same -/
-theorem tio_read_two_schedules (cfg₁ cfg₂ : Cfg) (h₁ : cfg₁.tbl = T ∧ cfg₁.legacy = false ∧ 3 ≤ cfg₁.capa)
-    (h₂ : cfg₂.tbl = T ∧ cfg₂.legacy = false ∧ 3 ≤ cfg₂.capa) (size₁ size₂ : Nat) (hs₁ : 1 ≤ size₁) (hs₂ : 1 ≤ size₂)
-    (cs : List Nat) (hb : BMP cs) (ch₁ ch₂ : List (List UInt8)) (hne₁ : ∀ c ∈ ch₁, c ≠ []) (hne₂ : ∀ c ∈ ch₂, c ≠ [])
-    (hj₁ : ch₁.flatten = encodeAll T cs) (hj₂ : ch₂.flatten = ch₁.flatten) :
+theorem tio_read_two_schedules {cm : Cmgr} {dom : Nat → Prop} {maxlen : Nat} (hok : CodecOk cm dom maxlen) (cfg₁ cfg₂ : Cfg) (h₁ : cfg₁.cm = cm ∧ cfg₁.legacy = false ∧ maxlen ≤ cfg₁.capa)
+    (h₂ : cfg₂.cm = cm ∧ cfg₂.legacy = false ∧ maxlen ≤ cfg₂.capa) (size₁ size₂ : Nat) (hs₁ : 1 ≤ size₁) (hs₂ : 1 ≤ size₂)
+    (cs : List Nat) (hb : Dom dom cs) (ch₁ ch₂ : List (List UInt8)) (hne₁ : ∀ c ∈ ch₁, c ≠ []) (hne₂ : ∀ c ∈ ch₂, c ≠ [])
+    (hj₁ : ch₁.flatten = encodeAllC cm cs) (hj₂ : ch₂.flatten = ch₁.flatten) :
     readAll cfg₁ size₁ (start ch₁) = readAll cfg₂ size₂ (start ch₂) := by
-  rw [tio_read_chunk_independent cfg₁ h₁.1 h₁.2.1 h₁.2.2 size₁ hs₁ cs hb ch₁ hne₁ hj₁,
-    tio_read_chunk_independent cfg₂ h₂.1 h₂.2.1 h₂.2.2 size₂ hs₂ cs hb ch₂ hne₂ (hj₂.trans hj₁)]
+  rw [tio_read_chunk_independent hok cfg₁ h₁.1 h₁.2.1 h₁.2.2 size₁ hs₁ cs hb ch₁ hne₁ hj₁,
+    tio_read_chunk_independent hok cfg₂ h₂.1 h₂.2.1 h₂.2.2 size₂ hs₂ cs hb ch₂ hne₂ (hj₂.trans hj₁)]
 
-/-- **arbitrary bytes, every table**: one `tio_read_uchars` call neither reads out of bounds (no fault) nor stores more
+/-- **arbitrary bytes, every character manager whose decoder stays in bounds** (utf8 with any table, utf16, mb8): one `tio_read_uchars` call neither reads out of bounds (no fault) nor stores more
 than `bufsize` characters, keeps cursor ≤ length ≤ capacity, and consumes at least one byte per character returned -/
-theorem tio_read_in_bounds (cfg : Cfg) (hl : cfg.legacy = false) (bufsize : Nat) (hb : 1 ≤ bufsize) (st : InSt)
+theorem tio_read_in_bounds (cfg : Cfg) (hdec : DecTotal cfg.cm) (hl : cfg.legacy = false) (bufsize : Nat) (hb : 1 ≤ bufsize) (st : InSt)
     (hs : st.cur ≤ st.buf.length ∧ st.buf.length ≤ cfg.capa) :
     ∃ st' r, readU cfg bufsize st = (st', r) ∧ (st'.cur ≤ st'.buf.length ∧ st'.buf.length ≤ cfg.capa) ∧
       (match r with | .n out => out.length ≤ bufsize | .err _ => True | .fault _ => False) ∧
       pending st' + r.count ≤ pending st := by
-  obtain ⟨st', r, h, hs', hr, hp⟩ := readU_safe cfg hl bufsize hb st hs
+  obtain ⟨st', r, h, hs', hr, hp⟩ := readU_safe cfg hdec hl bufsize hb st hs
   refine ⟨st', r, h, hs', ?_, hp⟩
   cases r <;> simp [RetOk] at hr <;> simp [hr]
 
 /-- `hawk_tio_readuchars` on arbitrary bytes: at most `size` characters, staging buffer within bounds -/
-theorem tio_readuchars_in_bounds (cfg : Cfg) (hl : cfg.legacy = false) (size : Nat) (st : InSt)
+theorem tio_readuchars_in_bounds (cfg : Cfg) (hdec : DecTotal cfg.cm) (hl : cfg.legacy = false) (size : Nat) (st : InSt)
     (hs : st.cur ≤ st.buf.length ∧ st.buf.length ≤ cfg.capa) :
     ∃ st' r, readUchars cfg size st = (st', r) ∧ (st'.cur ≤ st'.buf.length ∧ st'.buf.length ≤ cfg.capa) ∧
       (match r with | .n out => out.length ≤ size | .err _ => True | .fault _ => False) := by
-  obtain ⟨st', r, h, hs', hr, _⟩ := readLoop_safe cfg hl size size st [] (by simp) hs (by simp)
+  obtain ⟨st', r, h, hs', hr, _⟩ := readLoop_safe cfg hdec hl size size st [] (by simp) hs (by simp)
   refine ⟨st', r, h, hs', ?_⟩
   cases r <;> simp [RetOk] at hr <;> simp [hr]
 
 /-- reading arbitrary bytes to the end is total and deterministic: the caller's loop ends with "end of input" or with the
 conversion error, never with a fault and never without progress -/
-theorem tio_read_total (cfg : Cfg) (hl : cfg.legacy = false) (size : Nat) (chunks : List (List UInt8)) :
+theorem tio_read_total (cfg : Cfg) (hdec : DecTotal cfg.cm) (hl : cfg.legacy = false) (size : Nat) (chunks : List (List UInt8)) :
     (readAll cfg size (start chunks)).2 = .eof ∨ ∃ e, (readAll cfg size (start chunks)).2 = .err e :=
-  readAll_safe cfg hl size _ (start chunks) (Nat.le_refl _) ⟨by simp [start], by simp [start]⟩
+  readAll_safe cfg hdec hl size _ (start chunks) (Nat.le_refl _) ⟨by simp [start], by simp [start]⟩
 
 /-- the unrepaired code stored a character beyond the caller's room: one character of room, "a" then an illegal byte -/
 theorem legacy_stores_out_of_bounds :
     convPart { capa := 32, legacy := true } 1 { buf := [0x61, 0xFF] } =
       .done { buf := [0x61, 0xFF], cur := 2 } (.n [0x61, 0x3F]) := by
-  have h2 : convUpto T 0x0A 0 [0xFF] = .ok (-1, 0, []) := by
-    rw [convUpto_step T 0x0A 0 [0xFF] 0 0 (by simp) rfl]; rfl
-  have h1 : convUpto T 0x0A 1 [0x61, 0xFF] = .ok (-1, 1, [0x61]) := by
-    rw [convUpto_step T 0x0A 1 [0x61, 0xFF] 1 0x61 (by simp) rfl]
+  have h2 : convUpto (utf8Cmgr T) 0x0A 0 [0xFF] = .ok (-1, 0, []) := by
+    rw [convUpto_step (utf8Cmgr T) 0x0A 0 [0xFF] 0 0 (by simp) rfl]; rfl
+  have h1 : convUpto (utf8Cmgr T) 0x0A 1 [0x61, 0xFF] = .ok (-1, 1, [0x61]) := by
+    rw [convUpto_step (utf8Cmgr T) 0x0A 1 [0x61, 0xFF] 1 0x61 (by simp) rfl]
     simp only [show ([0x61, 0xFF] : List UInt8).drop 1 = [0xFF] by rfl, show (1 - 1) = 0 by rfl, h2]
     rfl
   exact convPart_x1_ign { capa := 32, legacy := true } 1 { buf := [0x61, 0xFF] } 1 [0x61] h1 rfl (Or.inl rfl)
@@ -198,10 +199,10 @@ theorem legacy_stores_out_of_bounds :
 /-- the repaired code leaves the illegal byte for the next call instead -/
 theorem repaired_keeps_within_room :
     convPart { capa := 32 } 1 { buf := [0x61, 0xFF] } = .done { buf := [0x61, 0xFF], cur := 1 } (.n [0x61]) := by
-  have h2 : convUpto T 0x0A 0 [0xFF] = .ok (-1, 0, []) := by
-    rw [convUpto_step T 0x0A 0 [0xFF] 0 0 (by simp) rfl]; rfl
-  have h1 : convUpto T 0x0A 1 [0x61, 0xFF] = .ok (-1, 1, [0x61]) := by
-    rw [convUpto_step T 0x0A 1 [0x61, 0xFF] 1 0x61 (by simp) rfl]
+  have h2 : convUpto (utf8Cmgr T) 0x0A 0 [0xFF] = .ok (-1, 0, []) := by
+    rw [convUpto_step (utf8Cmgr T) 0x0A 0 [0xFF] 0 0 (by simp) rfl]; rfl
+  have h1 : convUpto (utf8Cmgr T) 0x0A 1 [0x61, 0xFF] = .ok (-1, 1, [0x61]) := by
+    rw [convUpto_step (utf8Cmgr T) 0x0A 1 [0x61, 0xFF] 1 0x61 (by simp) rfl]
     simp only [show ([0x61, 0xFF] : List UInt8).drop 1 = [0xFF] by rfl, show (1 - 1) = 0 by rfl, h2]
     rfl
   exact convPart_x1_full { capa := 32 } 1 { buf := [0x61, 0xFF] } 1 [0x61] h1 rfl rfl (by simp)
@@ -210,8 +211,8 @@ theorem repaired_keeps_within_room :
 theorem legacy_overlapping_copy :
     convPart { capa := 32, legacy := true } 8 { buf := [0x0A, 0xE2, 0x82], cur := 1 } =
       .done { buf := [0x0A, 0xE2, 0x82], cur := 1 } (.fault .overlap) := by
-  have h1 : convUpto T 0x0A 8 [0xE2, 0x82] = .ok (-3, 0, []) := by
-    rw [convUpto_step T 0x0A 8 [0xE2, 0x82] 3 0 (by simp) rfl]; rfl
+  have h1 : convUpto (utf8Cmgr T) 0x0A 8 [0xE2, 0x82] = .ok (-3, 0, []) := by
+    rw [convUpto_step (utf8Cmgr T) 0x0A 8 [0xE2, 0x82] 3 0 (by simp) rfl]; rfl
   unfold convPart
   simp only [show ([0x0A, 0xE2, 0x82] : List UInt8).drop 1 = [0xE2, 0x82] by rfl]
   rw [h1]
@@ -247,80 +248,84 @@ theorem tio_flush_completes (o : OutSt) (hz : ∀ x ∈ o.script, x ≠ .zero) (
   refine ⟨hb, ?_, by rw [hb] at h2; simpa using h2⟩
   rw [← h1]; simp [OutSt.all, hb]
 
-/-- **every sequence of write calls, every handler script** (`hawk_tio_writeuchars` with BMP characters,
+/-- **every sequence of write calls, every handler script** (`hawk_tio_writeuchars` with characters of the manager's domain,
 `hawk_tio_writebchars`, `hawk_tio_flush`; the caller goes on after failures): there are parts `ps`, one per call, with
 `ps[i]` a prefix of the bytes call `i` was asked to write and all of them when call `i` reported success, such that accepted
 followed by staged is the concatenation of the parts.  So what the handler accepted is a prefix of that text — every byte at
 most once and in order —, a call that lost part of its text reported failure, every accepted slice and the staging buffer
 stay within the capacity, and no call faults or hangs -/
-theorem tio_write_exactly_once (cfg : Cfg) (hT : cfg.tbl = T) (hc : 3 ≤ cfg.capa) (ops : List WOp) (hb : ∀ op ∈ ops, op.bmp)
+theorem tio_write_exactly_once {cm : Cmgr} {dom : Nat → Prop} {maxlen : Nat} (hok : CodecOk cm dom maxlen) (cfg : Cfg) (hT : cfg.cm = cm) (hc : maxlen ≤ cfg.capa)
+    (hc1 : 1 ≤ cfg.capa) (ops : List WOp) (hb : ∀ op ∈ ops, op.bmp dom)
     (script : List Reply) :
-    ∃ ps, PartsOk ops (runOps cfg ops { script := script }).2 ps ∧
+    ∃ ps, PartsOk cm ops (runOps cfg ops { script := script }).2 ps ∧
       (runOps cfg ops { script := script }).1.all = ps.flatten ∧
       (runOps cfg ops { script := script }).1.sink.flatten <+: ps.flatten ∧
       (∀ ch ∈ (runOps cfg ops { script := script }).1.sink, ch.length ≤ cfg.capa) ∧
       (runOps cfg ops { script := script }).1.buf.length ≤ cfg.capa := by
-  obtain ⟨ps, h1, h2, _⟩ := runOps_spec cfg hT hc ops { script := script } hb (by simp)
+  obtain ⟨ps, h1, h2, _⟩ := runOps_spec hok cfg hT hc ops { script := script } hb hc1 (by simp)
   have hall : (runOps cfg ops { script := script }).1.all = ps.flatten := by simpa [OutSt.all] using h2.all
   refine ⟨ps, h1, hall, ?_, h2.sinkOk (by intro ch h; simp at h), h2.len⟩
   rw [← hall]; exact ⟨_, rfl⟩
 
 /-- when every call reported success the parts are the whole texts: accepted followed by staged is the text written so far,
 and what the handler accepted is a prefix of it -/
-theorem tio_write_success_is_text (cfg : Cfg) (hT : cfg.tbl = T) (hc : 3 ≤ cfg.capa) (ops : List WOp) (hb : ∀ op ∈ ops, op.bmp)
-    (script : List Reply) (hok : ∀ ok ∈ (runOps cfg ops { script := script }).2, ok = true) :
-    (runOps cfg ops { script := script }).1.all = (ops.map WOp.text).flatten ∧
-    (runOps cfg ops { script := script }).1.sink.flatten <+: (ops.map WOp.text).flatten := by
-  obtain ⟨ps, h1, h2, h3, _⟩ := tio_write_exactly_once cfg hT hc ops hb script
-  have := partsOk_all ops _ ps h1 hok
+theorem tio_write_success_is_text {cm : Cmgr} {dom : Nat → Prop} {maxlen : Nat} (hok : CodecOk cm dom maxlen) (cfg : Cfg) (hT : cfg.cm = cm) (hc : maxlen ≤ cfg.capa)
+    (hc1 : 1 ≤ cfg.capa) (ops : List WOp) (hb : ∀ op ∈ ops, op.bmp dom)
+    (script : List Reply) (hall : ∀ ok ∈ (runOps cfg ops { script := script }).2, ok = true) :
+    (runOps cfg ops { script := script }).1.all = (ops.map (WOp.text cm)).flatten ∧
+    (runOps cfg ops { script := script }).1.sink.flatten <+: (ops.map (WOp.text cm)).flatten := by
+  obtain ⟨ps, h1, h2, h3, _⟩ := tio_write_exactly_once hok cfg hT hc hc1 ops hb script
+  have := partsOk_all cm ops _ ps h1 hall
   rw [this] at h2 h3
   exact ⟨h2, h3⟩
 
 /-- and after a final flush that does not fail (handler never answering 0 from then on) the handler has accepted exactly
 the text written, once and in order -/
-theorem tio_write_final_flush (cfg : Cfg) (hT : cfg.tbl = T) (hc : 3 ≤ cfg.capa) (ops : List WOp) (hb : ∀ op ∈ ops, op.bmp)
-    (script : List Reply) (hok : ∀ ok ∈ (runOps cfg ops { script := script }).2, ok = true)
+theorem tio_write_final_flush {cm : Cmgr} {dom : Nat → Prop} {maxlen : Nat} (hok : CodecOk cm dom maxlen) (cfg : Cfg) (hT : cfg.cm = cm) (hc : maxlen ≤ cfg.capa)
+    (hc1 : 1 ≤ cfg.capa) (ops : List WOp) (hb : ∀ op ∈ ops, op.bmp dom)
+    (script : List Reply) (hall : ∀ ok ∈ (runOps cfg ops { script := script }).2, ok = true)
     (hz : ∀ x ∈ (runOps cfg ops { script := script }).1.script, x ≠ .zero) (c : Nat)
     (hr : (flush (runOps cfg ops { script := script }).1).2 = some c) :
-    (flush (runOps cfg ops { script := script }).1).1.sink.flatten = (ops.map WOp.text).flatten ∧
+    (flush (runOps cfg ops { script := script }).1).1.sink.flatten = (ops.map (WOp.text cm)).flatten ∧
     (flush (runOps cfg ops { script := script }).1).1.buf = [] := by
   obtain ⟨h1, h2, _⟩ := tio_flush_completes _ hz c hr
-  exact ⟨by rw [h2]; exact (tio_write_success_is_text cfg hT hc ops hb script hok).1, h1⟩
+  exact ⟨by rw [h2]; exact (tio_write_success_is_text hok cfg hT hc hc1 ops hb script hall).1, h1⟩
 
 /-- a handler that always accepts something (at least one byte per call, however few): every call succeeds -/
-theorem tio_write_accepting_handler (cfg : Cfg) (hT : cfg.tbl = T) (hc : 3 ≤ cfg.capa) (ops : List WOp) (hb : ∀ op ∈ ops, op.bmp)
+theorem tio_write_accepting_handler {cm : Cmgr} {dom : Nat → Prop} {maxlen : Nat} (hok : CodecOk cm dom maxlen) (cfg : Cfg) (hT : cfg.cm = cm) (hc : maxlen ≤ cfg.capa)
+    (hc1 : 1 ≤ cfg.capa) (ops : List WOp) (hb : ∀ op ∈ ops, op.bmp dom)
     (script : List Reply) (ha : ∀ x ∈ script, isAcc x) : ∀ ok ∈ (runOps cfg ops { script := script }).2, ok = true := by
-  obtain ⟨_, _, _, h⟩ := runOps_spec cfg hT hc ops { script := script } hb (by simp)
+  obtain ⟨_, _, _, h⟩ := runOps_spec hok cfg hT hc ops { script := script } hb hc1 (by simp)
   exact h ha (by simp; omega)
 
 /-- **write-side round trip**: any sequence of `hawk_tio_writeuchars` calls with BMP characters, against a handler that always
 accepts something, succeeds; the bytes accepted followed by the bytes still staged are the encoding of all characters in
 order, whatever the segmentation, the capacity (≥ 3), the flush policy and the sizes the handler accepts; every accepted
 slice is within the capacity -/
-theorem tio_write_roundtrip (cfg : Cfg) (hT : cfg.tbl = T) (hc : 3 ≤ cfg.capa) (segs : List (List Nat)) (hb : BMP segs.flatten)
-    (script : List Reply) (ha : ∀ x ∈ script, isAcc x) :
+theorem tio_write_roundtrip {cm : Cmgr} {dom : Nat → Prop} {maxlen : Nat} (hok : CodecOk cm dom maxlen) (cfg : Cfg) (hT : cfg.cm = cm) (hc : maxlen ≤ cfg.capa) (hc1 : 1 ≤ cfg.capa)
+    (segs : List (List Nat)) (hb : Dom dom segs.flatten) (script : List Reply) (ha : ∀ x ∈ script, isAcc x) :
     (writeMany cfg segs { script := script }).2 = true ∧
-    (writeMany cfg segs { script := script }).1.all = encodeAll T segs.flatten ∧
+    (writeMany cfg segs { script := script }).1.all = encodeAllC cm segs.flatten ∧
     ∀ ch ∈ (writeMany cfg segs { script := script }).1.sink, ch.length ≤ cfg.capa := by
-  have hbm : ∀ op ∈ segs.map WOp.u, op.bmp := by
+  have hbm : ∀ op ∈ segs.map WOp.u, op.bmp dom := by
     intro op hop
     obtain ⟨ws, hws, rfl⟩ := List.mem_map.mp hop
     exact fun c hc' => hb c (List.mem_flatten.mpr ⟨ws, hws, hc'⟩)
-  have hok := tio_write_accepting_handler cfg hT hc _ hbm script ha
-  obtain ⟨h1, _⟩ := tio_write_success_is_text cfg hT hc _ hbm script hok
-  obtain ⟨_, _, _, _, h4, _⟩ := tio_write_exactly_once cfg hT hc _ hbm script
-  refine ⟨by simpa [writeMany, List.all_eq_true] using hok, ?_, h4⟩
+  have hall := tio_write_accepting_handler hok cfg hT hc hc1 _ hbm script ha
+  obtain ⟨h1, _⟩ := tio_write_success_is_text hok cfg hT hc hc1 _ hbm script hall
+  obtain ⟨_, _, _, _, h4, _⟩ := tio_write_exactly_once hok cfg hT hc hc1 _ hbm script
+  refine ⟨by simpa [writeMany, List.all_eq_true] using hall, ?_, h4⟩
   simp only [writeMany]
   rw [h1, encodeAll_flatten]
 
 /-- written text read back, through any chunking of the written bytes, is the text -/
-theorem tio_write_then_read (wcfg rcfg : Cfg) (hwT : wcfg.tbl = T) (hwc : 3 ≤ wcfg.capa) (hrT : rcfg.tbl = T)
-    (hrl : rcfg.legacy = false) (hrc : 3 ≤ rcfg.capa) (size : Nat) (hs : 1 ≤ size) (segs : List (List Nat))
-    (hb : BMP segs.flatten) (chunks : List (List UInt8)) (hne : ∀ c ∈ chunks, c ≠ [])
+theorem tio_write_then_read {cm : Cmgr} {dom : Nat → Prop} {maxlen : Nat} (hok : CodecOk cm dom maxlen) (wcfg rcfg : Cfg) (hwT : wcfg.cm = cm) (hwc : maxlen ≤ wcfg.capa) (hwc1 : 1 ≤ wcfg.capa)
+    (hrT : rcfg.cm = cm) (hrl : rcfg.legacy = false) (hrc : maxlen ≤ rcfg.capa) (size : Nat) (hs : 1 ≤ size) (segs : List (List Nat))
+    (hb : Dom dom segs.flatten) (chunks : List (List UInt8)) (hne : ∀ c ∈ chunks, c ≠ [])
     (hj : chunks.flatten = (writeMany wcfg segs {}).1.all) :
     readAll rcfg size (start chunks) = (segs.flatten, .eof) :=
-  tio_read_chunk_independent rcfg hrT hrl hrc size hs segs.flatten hb chunks hne
-    (hj.trans (tio_write_roundtrip wcfg hwT hwc segs hb [] (by intro x h; simp at h)).2.1)
+  tio_read_chunk_independent hok rcfg hrT hrl hrc size hs segs.flatten hb chunks hne
+    (hj.trans (tio_write_roundtrip hok wcfg hwT hwc hwc1 segs hb [] (by intro x h; simp at h)).2.1)
 
 /-- the defect seeded as C05-r2s2 on a concrete run of the model of the *correct* code: "hello world\n" staged, the handler
 takes 5 bytes and then fails — the flush returns -1 with exactly the 7 undelivered bytes staged, and the next flush hands out
@@ -330,6 +335,26 @@ theorem flush_short_write_then_failure :
       ({ buf := [0x20, 0x77, 0x6F, 0x72, 0x6C, 0x64, 0x0A], sink := [[0x68, 0x65, 0x6C, 0x6C, 0x6F]], script := [], ncalls := 2 }, none) ∧
     flush { buf := [0x20, 0x77, 0x6F, 0x72, 0x6C, 0x64, 0x0A], sink := [[0x68, 0x65, 0x6C, 0x6C, 0x6F]], script := [], ncalls := 2 } =
       ({ buf := [], sink := [[0x68, 0x65, 0x6C, 0x6C, 0x6F], [0x20, 0x77, 0x6F, 0x72, 0x6C, 0x64, 0x0A]], script := [], ncalls := 3 }, some 7) := by
+  constructor <;> rfl
+
+/-- `hawk_tio_writebchars` with a null-terminated source (behind hawk_sio_putbcstr), repaired, **every handler script**: what
+entered "accepted followed by staged" is a prefix of the bytes before the first NUL and all of them when the call reported
+success; a failure is EIOERR (the handler failed) or EBUFFULL (it left the buffer full); accepted slices and the staging
+buffer stay within the capacity — in particular nothing is stored beyond the buffer -/
+theorem tio_write_cstr_exactly_once (cfg : Cfg) (hl : cfg.legacy = false) (bs : List UInt8) (o : OutSt) (h : o.buf.length ≤ cfg.capa)
+    (hs : ∀ ch ∈ o.sink, ch.length ≤ cfg.capa) :
+    ∃ p, (writeBcstr cfg bs o).1.all = o.all ++ p ∧ p <+: bs.takeWhile (· ≠ 0) ∧
+      ((writeBcstr cfg bs o).2 = none → p = bs.takeWhile (· ≠ 0)) ∧
+      ((writeBcstr cfg bs o).2 = none ∨ (writeBcstr cfg bs o).2 = some (.inl .eioerr) ∨ (writeBcstr cfg bs o).2 = some (.inl .ebuffull)) ∧
+      (writeBcstr cfg bs o).1.buf.length ≤ cfg.capa ∧ ∀ ch ∈ (writeBcstr cfg bs o).1.sink, ch.length ≤ cfg.capa := by
+  obtain ⟨p, hg, h1, h2, h3⟩ := writeBcstr_spec cfg hl bs o h
+  exact ⟨p, hg.all, h1, h2, h3, hg.len, hg.sinkOk hs⟩
+
+/-- the unrepaired loop went on after a flush in which the handler accepted nothing and stored the next byte beyond the
+buffer (capacity 2, "abc", the handler answers 0); the repaired one fails with HAWK_EBUFFULL -/
+theorem legacy_cstr_write_stores_beyond_buffer :
+    (writeBcstr { capa := 2, legacy := true } [0x61, 0x62, 0x63] { script := [.zero] }).2 = some (.inr .oobWrite) ∧
+    (writeBcstr { capa := 2 } [0x61, 0x62, 0x63] { script := [.zero] }).2 = some (.inl .ebuffull) := by
   constructor <;> rfl
 
 /-! ## bytes -/
@@ -372,20 +397,180 @@ theorem bytes_concat_substr_identity (x sep : List UInt8) :
   · simp
   · rw [← List.length_append, List.drop_left]
 
+/-! ## the three built-in character managers (lib/utl-cmgr.c: utf8, utf16, mb8)
+
+The read-side and write-side theorems above are stated for any `hawk_cmgr_t` satisfying `CodecOk` (the encoder reports a
+too small buffer by its return value and stores nothing then; the decoder undoes the encoder whatever follows and answers
+"incomplete" for a proper prefix of an encoding) resp. `DecTotal` (the decoder never reads beyond the size it is given).
+Here the three managers are shown to satisfy them, so "text passes through unchanged" also holds for a console or file
+opened with `--console-encoding`/`setioattr(…, "codepage", …)` utf16 or mb8 — for utf16 after the two repairs
+patches/utf16-incomplete.diff and patches/utf16-small-buffer.diff (`utf16_legacy_*` show the unrepaired behaviour). -/
+
+/-- utf8 on every 16-bit value (≤ 3 bytes), mb8 on 0..255 (1 byte), utf16 on the non-surrogate 16-bit values (2 bytes) -/
+theorem managers_ok :
+    CodecOk (utf8Cmgr T) (fun c => c < 65536) 3 ∧ CodecOk mb8Cmgr (fun c => c < 256) 1 ∧ CodecOk (utf16Cmgr false) utf16Dom 2 :=
+  ⟨codecOk_utf8, codecOk_mb8, codecOk_utf16⟩
+
+/-- every built-in decoder stays within the size it is given and gives a verdict (utf8 with any table; utf16 repaired or not) -/
+theorem decoders_in_bounds (tbl : List Utf8Row) (legacy : Bool) :
+    DecTotal (utf8Cmgr tbl) ∧ DecTotal mb8Cmgr ∧ DecTotal (utf16Cmgr legacy) :=
+  ⟨decTotal_utf8 tbl, decTotal_mb8, decTotal_utf16 legacy⟩
+
+/-- mb8: one byte is one character below 256, both ways; a character ≥ 256 is refused (return 0), an empty buffer is
+reported by the return value 1 > 0 -/
+theorem mb8_roundtrip (c : Nat) (t : List UInt8) :
+    (c < 256 → encodeC mb8Cmgr c = [UInt8.ofNat c] ∧ mb8ToUc (UInt8.ofNat c :: t) = .ok (1, c)) ∧
+    (256 ≤ c → ∀ size, 0 < size → ucToMb8 c size = ⟨0, none⟩) ∧ ucToMb8 c 0 = ⟨1, none⟩ ∧
+    (∀ b : UInt8, mb8ToUc (b :: t) = .ok (1, b.toNat) ∧ encodeC mb8Cmgr b.toNat = [b]) := by
+  refine ⟨fun hc => ⟨encodeC_mb8 c hc, ?_⟩, fun hc size hs => ?_, by simp [ucToMb8], fun b => ⟨by simp [mb8ToUc, rd], ?_⟩⟩
+  · have := codecOk_mb8.dec_enc c hc t
+    rw [encodeC_mb8 c hc] at this
+    simpa using this
+  · simp [ucToMb8, show size ≠ 0 by omega, show c > 255 by omega]
+  · rw [encodeC_mb8 _ b.toNat_lt]; simp
+
+/-- utf16 (16-bit characters, host byte order): a non-surrogate value is its two bytes, both ways; a surrogate code unit is
+encoded but refused by the decoder (the pair branches are not compiled for 16-bit `hawk_uch_t`); one byte of a unit is
+"incomplete" (2 > 1), and a buffer of fewer than two bytes is reported by the return value with nothing stored -/
+theorem utf16_roundtrip (c : Nat) (hc : c < 65536) (t : List UInt8) :
+    encodeC (utf16Cmgr false) c = [UInt8.ofNat (c % 256), UInt8.ofNat (c / 256)] ∧
+    ((c < 0xD800 ∨ c > 0xDFFF) → utf16ToUc false (UInt8.ofNat (c % 256) :: UInt8.ofNat (c / 256) :: t) = .ok (2, c)) ∧
+    ((0xD800 ≤ c ∧ c ≤ 0xDFFF) → utf16ToUc false (UInt8.ofNat (c % 256) :: UInt8.ofNat (c / 256) :: t) = .ok (0, 0)) ∧
+    (∀ b : UInt8, utf16ToUc false [b] = .ok (2, 0)) ∧
+    (∀ size, size < 2 → ucToUtf16 false c size = ⟨2, none⟩) := by
+  refine ⟨encodeC_utf16 c hc, fun hd => ?_, fun hd => ?_, fun b => by simp [utf16ToUc], fun size hs => ?_⟩
+  · have := codecOk_utf16.dec_enc c ⟨hc, hd⟩ t
+    rw [encodeC_utf16 c hc] at this
+    simpa using this
+  · have h1 : c % 256 + 256 * (c / 256 % 256) = c := by omega
+    have h2 : ¬ (c < 55296 ∨ 57343 < c) := by omega
+    simp [utf16ToUc, rd, h1, h2]
+  · simp [ucToUtf16, show c ≤ 65535 by omega, show ¬ 2 ≤ size by omega]
+
+/-- the unrepaired utf16 decoder called one byte of a two-byte unit *illegal* (return 0) instead of incomplete: tio then
+replaces it by '?' instead of waiting for the other byte, so a read boundary inside a unit corrupts well-formed text -/
+theorem utf16_legacy_incomplete_is_illegal (b : UInt8) :
+    utf16ToUc true [b] = .ok (0, 0) ∧ utf16ToUc false [b] = .ok (2, 0) := by
+  constructor <;> simp [utf16ToUc]
+
+/-- the unrepaired utf16 encoder stored its two bytes whatever room it was given: with one byte of room, one byte lands
+beyond the buffer (the repaired one returns 2 > 1 and stores nothing) -/
+theorem utf16_legacy_stores_beyond_buffer (c : Nat) (hc : c < 65536) :
+    (ucToUtf16 true c 1).bytes = some [UInt8.ofNat (c % 256), UInt8.ofNat (c / 256)] ∧ (ucToUtf16 false c 1).bytes = none := by
+  constructor <;> simp [ucToUtf16, show c ≤ 65535 by omega]
+
+/-- `hawk_get_cmgr_by_bcstr` / `_by_ucstr`: the three names select their managers, anything else (including other letter
+cases) selects none -/
+theorem cmgr_by_name :
+    cmgrByName "utf8" = some .utf8 ∧ cmgrByName "utf16" = some .utf16 ∧ cmgrByName "mb8" = some .mb8 ∧
+    cmgrByName "UTF8" = none ∧ cmgrByName "" = none ∧ cmgrByName "utf-8" = none ∧
+    (∀ id, ∃ name, cmgrByName name = some id) := by
+  refine ⟨by decide, by decide, by decide, by decide, by decide, by decide, fun id => ?_⟩
+  cases id
+  · exact ⟨"utf8", by decide⟩
+  · exact ⟨"utf16", by decide⟩
+  · exact ⟨"mb8", by decide⟩
+
+/-- text through a utf16 console: every chunking (also through the middle of a unit), capacity ≥ 2 -/
+theorem tio_read_chunk_independent_utf16 (cfg : Cfg) (hT : cfg.cm = utf16Cmgr false) (hl : cfg.legacy = false) (hc : 2 ≤ cfg.capa)
+    (size : Nat) (hs : 1 ≤ size) (cs : List Nat) (hb : Dom utf16Dom cs) (chunks : List (List UInt8))
+    (hne : ∀ c ∈ chunks, c ≠ []) (hj : chunks.flatten = encodeAllC (utf16Cmgr false) cs) :
+    readAll cfg size (start chunks) = (cs, .eof) :=
+  tio_read_chunk_independent codecOk_utf16 cfg hT hl hc size hs cs hb chunks hne hj
+
+/-- text through an mb8 console -/
+theorem tio_read_chunk_independent_mb8 (cfg : Cfg) (hT : cfg.cm = mb8Cmgr) (hl : cfg.legacy = false) (hc : 1 ≤ cfg.capa)
+    (size : Nat) (hs : 1 ≤ size) (cs : List Nat) (hb : Dom (fun c => c < 256) cs) (chunks : List (List UInt8))
+    (hne : ∀ c ∈ chunks, c ≠ []) (hj : chunks.flatten = encodeAllC mb8Cmgr cs) :
+    readAll cfg size (start chunks) = (cs, .eof) :=
+  tio_read_chunk_independent codecOk_mb8 cfg hT hl hc size hs cs hb chunks hne hj
+
+/-- the utf8 instance in its original wording: BMP characters, capacity ≥ 3 -/
+theorem tio_read_chunk_independent_utf8 (cfg : Cfg) (hT : cfg.cm = utf8Cmgr T) (hl : cfg.legacy = false) (hc : 3 ≤ cfg.capa)
+    (size : Nat) (hs : 1 ≤ size) (cs : List Nat) (hb : BMP cs) (chunks : List (List UInt8))
+    (hne : ∀ c ∈ chunks, c ≠ []) (hj : chunks.flatten = encodeAll T cs) :
+    readAll cfg size (start chunks) = (cs, .eof) :=
+  tio_read_chunk_independent codecOk_utf8 cfg hT hl hc size hs cs hb chunks hne hj
+
+/-- the write side for the three managers: exactly once, in order, for every handler script -/
+theorem tio_write_exactly_once_builtin (id : CmgrId) (cfg : Cfg) (hT : cfg.cm = cmgrById id) (hc : 3 ≤ cfg.capa)
+    (ops : List WOp) (script : List Reply)
+    (hb : ∀ op ∈ ops, op.bmp (match id with | .utf8 => fun c => c < 65536 | .utf16 => utf16Dom | .mb8 => fun c => c < 256)) :
+    ∃ ps, PartsOk (cmgrById id) ops (runOps cfg ops { script := script }).2 ps ∧
+      (runOps cfg ops { script := script }).1.all = ps.flatten ∧
+      (runOps cfg ops { script := script }).1.sink.flatten <+: ps.flatten := by
+  cases id with
+  | utf8 => obtain ⟨ps, h1, h2, h3, _⟩ := tio_write_exactly_once codecOk_utf8 cfg hT hc (by omega) ops hb script; exact ⟨ps, h1, h2, h3⟩
+  | utf16 => obtain ⟨ps, h1, h2, h3, _⟩ := tio_write_exactly_once codecOk_utf16 cfg hT (by omega) (by omega) ops hb script; exact ⟨ps, h1, h2, h3⟩
+  | mb8 => obtain ⟨ps, h1, h2, h3, _⟩ := tio_write_exactly_once codecOk_mb8 cfg hT (by omega) (by omega) ops hb script; exact ⟨ps, h1, h2, h3⟩
+
+/-! ## bytes ↔ text conversion of values (lib/gem.c duplicating converters behind lib/val.c)
+
+`hawk_rtx_makestrvalwithbchars`, `hawk_rtx_valtoucstrdupwithcmgr`, `mbs_to_str`, … convert with `all = 1` (one '?' per
+undecodable byte); `hawk_rtx_makembsvalwithuchars`, `hawk_rtx_valtobcstrdupwithcmgr`, … fail with HAWK_EECERR on a
+character the manager refuses.  Both run the conversion loop twice (count, then fill a block of exactly that size). -/
+
+/-- **arbitrary bytes to text, every manager**: no out-of-bounds read, the filling pass never overruns the block the counting
+pass sized and fills it exactly, at most one character per byte; with `all` (what val.c uses) the conversion cannot fail -/
+theorem bytes_to_text_in_bounds (cm : Cmgr) (hdec : DecTotal cm) (all : Bool) (s : List UInt8) :
+    (∃ out, dupBtoU cm all s = .ok (.ok out) ∧ out.length ≤ s.length) ∨ (all = false ∧ dupBtoU cm all s = .ok .eecerr) :=
+  dupBtoU_spec cm hdec all s
+
+/-- the counting pass and the filling pass of bytes → text agree on arbitrary input -/
+theorem bytes_to_text_two_passes (cm : Cmgr) (hdec : DecTotal cm) (all : Bool) (s : List UInt8) :
+    ∃ x m k, convBtoUCount cm all s = .ok (x, m, k) ∧ (x = 0 ∨ x = -1 ∨ x = -3) ∧
+      (x = 0 → ∃ out, convBtoU cm all k s = .ok (0, m, out) ∧ out.length = k) := by
+  obtain ⟨x, m, k, h, hx, _, _, _, hc⟩ := convBtoU_two_passes cm hdec all s.length s (Nat.le_refl _)
+  exact ⟨x, m, k, h, hx, hc⟩
+
+/-- **text ↔ bytes round trip of values**: characters the manager carries convert to their encoding, which converts back to
+the characters; so a text string passed through a byte string (and a well-formed byte string through a text string) is
+unchanged, for utf8, utf16 and mb8 alike -/
+theorem text_bytes_roundtrip {cm : Cmgr} {dom : Nat → Prop} {maxlen : Nat} (hok : CodecOk cm dom maxlen) (all : Bool)
+    (ws : List Nat) (hb : Dom dom ws) :
+    dupUtoB cm ws = .ok (encodeAllC cm ws) ∧ dupBtoU cm all (encodeAllC cm ws) = .ok (.ok ws) :=
+  ⟨dupUtoB_dom hok ws hb, dupBtoU_wf hok all ws hb⟩
+
+/-- a character the manager does not carry (≥ 256 for mb8) is refused with HAWK_EECERR, never converted to something else -/
+theorem text_to_bytes_refuses {cm : Cmgr} {dom : Nat → Prop} {maxlen : Nat} (hok : CodecOk cm dom maxlen) (pre post : List Nat)
+    (c : Nat) (hb : Dom dom pre) (hc : (cm.uctobc c bcsizeMax).ret = 0) : dupUtoB cm (pre ++ c :: post) = .eecerr :=
+  dupUtoB_refuses hok pre post c hb hc
+
 /-! ## the hypotheses are satisfiable (non-vacuity) -/
 
 /-- "\n€\n" delivered as "\n E2 82" + "AC \n": the situation in which the unrepaired code made the overlapping copy -/
 example : readAll { capa := 32 } 8 (start [[0x0A, 0xE2, 0x82], [0xAC, 0x0A]]) = ([0x0A, 0x20AC, 0x0A], .eof) :=
-  tio_read_chunk_independent { capa := 32 } rfl rfl (by decide) 8 (by decide) [0x0A, 0x20AC, 0x0A]
+  tio_read_chunk_independent_utf8 { capa := 32 } rfl rfl (by decide) 8 (by decide) [0x0A, 0x20AC, 0x0A]
     (by intro c hc; simp at hc; rcases hc with rfl | rfl | rfl <;> decide)
     [[0x0A, 0xE2, 0x82], [0xAC, 0x0A]] (by intro c hc; simp at hc; rcases hc with rfl | rfl <;> simp) rfl
 
-/-- a surrogate is an ordinary character for this codec -/
+/-- "A€\n" in utf16 delivered with a boundary inside the second unit: the case the unrepaired decoder corrupted -/
+example : readAll { capa := 32, cm := utf16Cmgr false } 8 (start [[0x41, 0x00, 0xAC], [0x20, 0x0A, 0x00]]) = ([0x41, 0x20AC, 0x0A], .eof) :=
+  tio_read_chunk_independent_utf16 { capa := 32, cm := utf16Cmgr false } rfl rfl (by decide) 8 (by decide) [0x41, 0x20AC, 0x0A]
+    (by intro c hc; simp at hc; rcases hc with rfl | rfl | rfl <;> (unfold utf16Dom; omega))
+    [[0x41, 0x00, 0xAC], [0x20, 0x0A, 0x00]] (by intro c hc; simp at hc; rcases hc with rfl | rfl <;> simp) rfl
+
+example : readAll { capa := 32, cm := mb8Cmgr } 8 (start [[0x41, 0xE9], [0x0A]]) = ([0x41, 0xE9, 0x0A], .eof) :=
+  tio_read_chunk_independent_mb8 { capa := 32, cm := mb8Cmgr } rfl rfl (by decide) 8 (by decide) [0x41, 0xE9, 0x0A]
+    (by intro c hc; simp at hc; rcases hc with rfl | rfl | rfl <;> decide)
+    [[0x41, 0xE9], [0x0A]] (by intro c hc; simp at hc; rcases hc with rfl | rfl <;> simp) rfl
+
+/-- a surrogate is an ordinary character for the utf8 codec -/
 example : encode T 0xD800 = [0xED, 0xA0, 0x80] ∧ utf8ToUc T [0xED, 0xA0, 0x80] = .ok (3, 0xD800) := ⟨rfl, rfl⟩
 
 example : (writeMany { capa := 32 } [[0x41, 0x20AC], [0x0A]] { script := [.acc 0, .acc 2] }).1.all = [0x41, 0xE2, 0x82, 0xAC, 0x0A] :=
-  (tio_write_roundtrip { capa := 32 } rfl (by decide) [[0x41, 0x20AC], [0x0A]]
+  (tio_write_roundtrip codecOk_utf8 { capa := 32 } rfl (by decide) (by decide) [[0x41, 0x20AC], [0x0A]]
     (by intro c hc; simp at hc; rcases hc with rfl | rfl | rfl <;> decide) [.acc 0, .acc 2]
     (by intro x hx; simp at hx; rcases hx with rfl | rfl <;> trivial)).2.1
+
+/-- "Aé" to bytes and back under each manager; '€' is refused by mb8 -/
+example : dupUtoB (utf8Cmgr T) [0x41, 0xE9] = .ok [0x41, 0xC3, 0xA9] ∧ dupUtoB mb8Cmgr [0x41, 0xE9] = .ok [0x41, 0xE9] ∧
+    dupUtoB (utf16Cmgr false) [0x41, 0xE9] = .ok [0x41, 0x00, 0xE9, 0x00] ∧ dupUtoB mb8Cmgr [0x41, 0x20AC] = .eecerr := by
+  refine ⟨?_, ?_, ?_, ?_⟩
+  · exact (text_bytes_roundtrip codecOk_utf8 true [0x41, 0xE9] (by intro c h; simp at h; rcases h with rfl | rfl <;> decide)).1
+  · exact (text_bytes_roundtrip codecOk_mb8 true [0x41, 0xE9] (by intro c h; simp at h; rcases h with rfl | rfl <;> decide)).1
+  · exact (text_bytes_roundtrip codecOk_utf16 true [0x41, 0xE9]
+      (by intro c h; simp at h; rcases h with rfl | rfl <;> (unfold utf16Dom; omega))).1
+  · exact text_to_bytes_refuses codecOk_mb8 [0x41] [] 0x20AC (by intro c h; simp at h; subst h; decide) rfl
 
 end Hawk.C15
